@@ -23,6 +23,11 @@ import (
 	"github.com/jdillenkofer/pithos/internal/storage"
 	"github.com/jdillenkofer/pithos/internal/storage/database"
 	repositoryfactory "github.com/jdillenkofer/pithos/internal/storage/database/repository"
+	bucketrepo "github.com/jdillenkofer/pithos/internal/storage/database/repository/bucket"
+	objectrepo "github.com/jdillenkofer/pithos/internal/storage/database/repository/object"
+	partrepo "github.com/jdillenkofer/pithos/internal/storage/database/repository/part"
+	tagrepo "github.com/jdillenkofer/pithos/internal/storage/database/repository/tag"
+	usermetarepo "github.com/jdillenkofer/pithos/internal/storage/database/repository/usermetadata"
 	sqlstore "github.com/jdillenkofer/pithos/internal/storage/metadatapart/metadatastore/sql"
 	"github.com/jdillenkofer/pithos/internal/storage/metadatapart/partstore"
 	"github.com/oklog/ulid/v2"
@@ -72,6 +77,89 @@ func verifFaultPoint() bool {
 	hit := verifFaultSeen == verifFaultAt
 	verifFaultSeen++
 	return hit
+}
+
+// ---- failing repositories (database statement failures) -------------------
+
+type verifObjectRepo struct{ objectrepo.Repository }
+
+func (r *verifObjectRepo) SaveObject(ctx context.Context, tx *dbsql.Tx, e *objectrepo.Entity) error {
+	if verifFaultPoint() {
+		return verifErrInjected
+	}
+	return r.Repository.SaveObject(ctx, tx, e)
+}
+func (r *verifObjectRepo) UpdateObjectByIdAndOptimisticLockVersion(ctx context.Context, tx *dbsql.Tx, e *objectrepo.Entity, v int64) (*bool, error) {
+	if verifFaultPoint() {
+		return nil, verifErrInjected
+	}
+	return r.Repository.UpdateObjectByIdAndOptimisticLockVersion(ctx, tx, e, v)
+}
+func (r *verifObjectRepo) DeleteObjectById(ctx context.Context, tx *dbsql.Tx, id ulid.ULID) (*bool, error) {
+	if verifFaultPoint() {
+		return nil, verifErrInjected
+	}
+	return r.Repository.DeleteObjectById(ctx, tx, id)
+}
+func (r *verifObjectRepo) FindObjectByBucketNameAndKey(ctx context.Context, tx *dbsql.Tx, b storage.BucketName, k storage.ObjectKey) (*objectrepo.Entity, error) {
+	if verifFaultPoint() {
+		return nil, verifErrInjected
+	}
+	return r.Repository.FindObjectByBucketNameAndKey(ctx, tx, b, k)
+}
+
+type verifPartRepo struct{ partrepo.Repository }
+
+func (r *verifPartRepo) SavePart(ctx context.Context, tx *dbsql.Tx, e *partrepo.Entity) error {
+	if verifFaultPoint() {
+		return verifErrInjected
+	}
+	return r.Repository.SavePart(ctx, tx, e)
+}
+func (r *verifPartRepo) DeletePartsByObjectIdReturning(ctx context.Context, tx *dbsql.Tx, id ulid.ULID) ([]partrepo.Entity, error) {
+	if verifFaultPoint() {
+		return nil, verifErrInjected
+	}
+	return r.Repository.DeletePartsByObjectIdReturning(ctx, tx, id)
+}
+
+type verifTagRepo struct{ tagrepo.Repository }
+
+func (r *verifTagRepo) SaveTag(ctx context.Context, tx *dbsql.Tx, e *tagrepo.Entity) error {
+	if verifFaultPoint() {
+		return verifErrInjected
+	}
+	return r.Repository.SaveTag(ctx, tx, e)
+}
+func (r *verifTagRepo) DeleteTagsByObjectId(ctx context.Context, tx *dbsql.Tx, id ulid.ULID) error {
+	if verifFaultPoint() {
+		return verifErrInjected
+	}
+	return r.Repository.DeleteTagsByObjectId(ctx, tx, id)
+}
+
+type verifUserMetaRepo struct{ usermetarepo.Repository }
+
+func (r *verifUserMetaRepo) SaveUserMetadata(ctx context.Context, tx *dbsql.Tx, e *usermetarepo.Entity) error {
+	if verifFaultPoint() {
+		return verifErrInjected
+	}
+	return r.Repository.SaveUserMetadata(ctx, tx, e)
+}
+
+type verifBucketRepo struct{ bucketrepo.Repository }
+
+func (r *verifBucketRepo) SaveBucket(ctx context.Context, tx *dbsql.Tx, e *bucketrepo.Entity) error {
+	if verifFaultPoint() {
+		return verifErrInjected
+	}
+	return r.Repository.SaveBucket(ctx, tx, e)
+}
+func (r *verifBucketRepo) DeleteBucketByName(ctx context.Context, tx *dbsql.Tx, b storage.BucketName) error {
+	if verifFaultPoint() {
+		return verifErrInjected
+	}
+	return r.Repository.DeleteBucketByName(ctx, tx, b)
 }
 
 // ---- part store double ----------------------------------------------------
@@ -179,7 +267,7 @@ func verifNewEnv(classToStore map[string]string) *verifEnv {
 	verifMust(err)
 	u, err := repositoryfactory.NewUserMetadataRepository(db)
 	verifMust(err)
-	ms, err := sqlstore.New(db, b, o, p, t, u)
+	ms, err := sqlstore.New(db, &verifBucketRepo{b}, &verifObjectRepo{o}, &verifPartRepo{p}, &verifTagRepo{t}, &verifUserMetaRepo{u})
 	verifMust(err)
 	env := &verifEnv{def: &verifPartStore{}, bucket: storage.MustNewBucketName("bucket")}
 	var extra map[string]partstore.PartStore
